@@ -9,6 +9,7 @@ import (
 	"context"
 	"fmt"
 	"math/big"
+	"sync"
 	"time"
 
 	"github.com/elnosh/gonuts/cashu"
@@ -149,7 +150,19 @@ func Run(t world.T, cs Case, choose sched.Chooser, after func(w *world.World, r 
 	s := sched.New()
 	hook := func(pos string) { s.Yield(pos) }
 	w.DB.Hook = func(c *dbproxy.Call) error { hook(c.Method); return nil }
-	w.LN.Hook = func(c *lnmodel.Call) error { hook("LN." + c.Method); return nil }
+	// which request issued a pay call (several requests of a case may pay on one payment hash: retries on one quote)
+	var payMu sync.Mutex
+	paidByGid := map[int64]int{}
+	reqGid := make([]int64, len(cs.Reqs))
+	w.LN.Hook = func(c *lnmodel.Call) error {
+		if c.Method == "SendPayment" || c.Method == "PayPartialAmount" {
+			payMu.Lock()
+			paidByGid[dbproxy.Gid()]++
+			payMu.Unlock()
+		}
+		hook("LN." + c.Method)
+		return nil
+	}
 	res.Outs = make([]Outcome, len(cs.Reqs))
 	type prepared struct {
 		inputs cashu.Proofs
@@ -208,6 +221,7 @@ func Run(t world.T, cs Case, choose sched.Chooser, after func(w *world.World, r 
 		res.Outs[i].Spec = r
 		res.Outs[i].Outs = p.outs
 		s.Go(fmt.Sprintf("%s%d", r.Kind, i), func() (any, error) {
+			reqGid[i] = dbproxy.Gid()
 			switch r.Kind {
 			case "swap":
 				sigs, err := w.Mint.Swap(p.inputs, world.Msgs(p.outs))
@@ -298,7 +312,11 @@ func Run(t world.T, cs Case, choose sched.Chooser, after func(w *world.World, r 
 			if r.SameQuote && res.Pre != nil && res.Outs[i].Hash == res.Pre.Hash {
 				// a new attempt on the pre-melt's quote: the first pay call for that hash was the pre-melt's
 				retried = true
-				if payCalls(res.Pre.Hash) < 2 {
+				payMu.Lock()
+				paidItself := paidByGid[reqGid[i]] > 0
+				payMu.Unlock()
+				if payCalls(res.Pre.Hash) < 2 || !paidItself {
+					// refused before it paid: whatever the payment record says belongs to another attempt
 					res.Outs[i].Accepted, res.Outs[i].PayTruth = false, lnmodel.TruthNone
 				}
 			}
